@@ -18,6 +18,7 @@ pub mod props;
 pub mod report;
 pub mod runner;
 pub mod tape;
+pub mod textgrid;
 
 use gates::Gates;
 use report::Finding;
